@@ -140,7 +140,13 @@ def canon(obj, _depth=0):
         return ["callable", describe_callable(obj)]
     if isinstance(obj, type):
         return "type:" + obj.__module__ + "." + obj.__qualname__
-    return "repr:" + type(obj).__name__ + ":" + repr(obj)[:200]
+    # unknown object: never let a memory address into a canonical form
+    d = getattr(obj, "__dict__", None)
+    if isinstance(d, dict) and d:
+        return ["obj", type(obj).__module__ + "." + type(obj).__qualname__, canon(d, _depth + 1)]
+    import re
+
+    return "repr:" + type(obj).__name__ + ":" + re.sub(r" at 0x[0-9a-fA-F]+", "", repr(obj))[:200]
 
 
 def canon_values(arr) -> list:
